@@ -1513,6 +1513,14 @@ func (e *SplatExpr) Value(ctx *hcl.EvalContext) (cty.Value, hcl.Diagnostics) {
             diags = append(diags, tyDiags...)
             return cty.ListValEmpty(ty.ElementType()), diags
         }
+        // the elements of a list of dynamically typed values can give results of
+        // different types (a nested splat yields a tuple per element): cty.ListVal
+        // panics on those, a tuple holds them
+        for _, val := range vals[1:] {
+            if !val.Type().Equals(vals[0].Type()) {
+                return cty.TupleVal(vals).WithMarks(marks), diags
+            }
+        }
         return cty.ListVal(vals).WithMarks(marks), diags
     default:
         return cty.TupleVal(vals).WithMarks(marks), diags
